@@ -90,7 +90,7 @@ fn expected(cols: &[&Vec<Elem>]) -> Vec<Elem> {
 
 fn check(res: Result<Result<ArrayRef, ArrowError>, vcore::PanicInfo>, want_type: &DataType, want: &[Elem]) -> Option<(String, String)> {
     match res {
-        Err(p) => Some((p.fingerprint(), format!("panic {p:?}"))),
+        Err(p) => Some((crate::util::pfp(&p), format!("panic {p:?}"))),
         Ok(Err(e)) => Some(("unexpected-error".into(), format!("Err({e})"))),
         Ok(Ok(out)) => {
             if let Err(e) = out.to_data().validate_full() {
